@@ -184,9 +184,11 @@ CHECKS["C08"] = dict(cat="model_checking", ref="§6 C08",
         "on wire and rail tracks and each is replayed on tracks::Track, state compared after every operation. TetrisCompile.tla "
         "specifies the compiled cell (period instantiation with offset/overlap/flip, crossing centres, removed intervals, wire "
         "pieces, nets, vias, WellFormed); MC_TetrisCompile enumerates 15 stacks x outlines x cut/assignment/instance features and "
-        "Library::to_raw must yield exactly the specified rectangles, or an error where no tiling exists.",
+        "Library::to_raw must yield exactly the specified rectangles, or an error where no tiling exists; a seeded random family "
+        "mixes cuts, nets and instances on multi-layer stacks. Apalache proves Tiling inductive for any span and any integer "
+        "arguments (specs/apalache/TracksInd.tla), i.e. beyond the bounds TLC explores.",
    note="Trusted: TLC, the case->Library builder, rectangle canonicalisation. Even cut/via/track widths; rectangular outlines.",
-   tech="TLA+ track state machine and compile spec, TLC exhaustive; S->I replay with per-step state comparison")
+   tech="TLA+ track state machine and compile spec, TLC exhaustive + Apalache inductive invariant; S->I replay with per-step state comparison")
 
 PENDING = {}
 
